@@ -178,8 +178,15 @@ class Driver(object):
     def _multicall(self, batch):
         self.transport.reply_text = json.dumps(batch)
         mc = self.jsonrpclib.MultiCall(self.proxy)
-        for _ in batch:
+        # calls (one per reply entry) mixed with notifications (which get no reply entry), pattern taken from the
+        # batch itself so that a replay is deterministic
+        pattern = hash(json.dumps(batch, sort_keys=True)) % 4
+        for i, _ in enumerate(batch):
+            if pattern == 1 and i == 0 or pattern == 2:
+                mc._notify.note(i)
             mc.some_method(1)
+            if pattern == 3 and i == len(batch) - 1:
+                mc._notify.note(i)
         return mc()
 
     def observe_iter(self, batch):
